@@ -6,7 +6,8 @@ set -u
 ROOT="$(cd "$(dirname "$0")/.." && pwd)"
 SRC="$(realpath "$1")"; SID="$2"; PROP="$3"; shift 3; CHECKS="$PROP $*"
 W=$(mktemp -d /tmp/pjrpc-seedchk.XXXXXX); rmdir "$W"
-git -C /repo worktree add --detach -q "$W" HEAD || exit 2
+for try in 1 2 3 4 5; do git -C /repo worktree add --detach -q "$W" HEAD 2>/dev/null && break; sleep $((try * 2)); done   # other runs may hold the worktree lock
+[ -d "$W" ] || exit 2
 trap 'git -C /repo worktree remove --force "$W" >/dev/null 2>&1; rm -rf "$W"' EXIT
 cp "$SRC/demo.py" "$W/.seed_demo.py"; DEMO=.seed_demo.py
 (cd "$W" && PYTHONPATH="$W" timeout 300 /venv/bin/python $DEMO >/dev/null 2>&1); clean_rc=$?
